@@ -26,7 +26,9 @@ RULE = (
     "4 thorough.  Checked per transition: value = twin; cache disabled => bodies run exactly as in the memo-free twin "
     "and cache contents identical before/after; effects disabled => no effect runs, else one per body run of its "
     "dataset; logging disabled => nothing emitted and (context) no request reaches the previous handler, else the "
-    "emitted INFO records = log requests = dataset computations.  Non-trivial = transitions with at least one switch on."
+    "emitted INFO records = log requests = dataset computations (+ log effects); the same dataset options evaluated "
+    "again with the cache on run no body whatever the other switches were; the per-dataset toggle is set "
+    "idempotently before every evaluation.  Non-trivial = transitions with at least one switch on."
 )
 ASSUMPTIONS = [
     "LABREA.CACHE.DISABLED: False together with LABREA.CACHE.DISABLE: True is not generated; with_options derivatives taken after disable_effects() are not generated (DESIGN section 5)",
